@@ -1,57 +1,847 @@
 package main
 
+// C08: values shown as JavaScript or JSON.  A case is {id, desc[, cx]}: the DESCRIPTOR of a Go value
+// (spec/valuelit/ValueLit.tla lists the grammar).  The driver builds the value by reflection, declares it
+// as the global x with its concrete static type, renders x in four contexts through Template.Run and logs
+// the rendered literal.  No expected value is computed here.  With -oracle (used by checks/c08.py ONLY for
+// cases the TLA+ judge has already failed) each observation also says whether encoding/json, run on the
+// same value, decodes to the same data as the rendered text.
+
 import (
 	"bytes"
 	"encoding/json"
+	"errors"
+	"flag"
 	"fmt"
-	"math"
+	"math/rand"
 	"reflect"
+	"strconv"
+	"strings"
 	"time"
+
+	"verifharness/drv"
 
 	"github.com/open2b/scriggo"
 	"github.com/open2b/scriggo/native"
 )
 
+// ---- registry of struct types (mirrored by the struct menu of spec/valuelit/MC_ValueLit.tla) ----
+
+type S0 struct{}
+type S1 struct {
+	A int64
+	B string `json:"b"`
+	c bool
+}
+type S2 struct {
+	A int64          `json:"a,omitempty"`
+	B string         `json:",omitempty"`
+	C any            `json:"c,omitempty"`
+	D *int64         `json:"d,omitempty"`
+	E []any          `json:"e,omitempty"`
+	F float64        `json:"f,omitempty"`
+	G map[string]any `json:"g,omitempty"`
+	H bool           `json:"h,omitempty"`
+	L []byte         `json:"l,omitempty"`
+}
+type S3 struct {
+	Skip int64 `json:"-"`
+	Dash int64 `json:"-,"`
+	X    any
+	Y    any `json:"a b"`
+}
 type Inner struct {
 	P int64
 	Q string `json:"q"`
 }
-type inner2 struct{ R int64 }
+type hidden struct{ R int64 }
 type S4 struct {
 	Inner
-	inner2
+	hidden
 	Z int64
 }
-type NB []byte
+type S5 struct {
+	T time.Time
+	N *S1 `json:"n,omitempty"`
+	K [2]any
+	U uint64 `json:"u"`
+}
 
-func show(file, src string, v any) string {
+var registry = map[string]reflect.Type{
+	"S0": reflect.TypeOf(S0{}), "S1": reflect.TypeOf(S1{}), "S2": reflect.TypeOf(S2{}), "S3": reflect.TypeOf(S3{}),
+	"S4": reflect.TypeOf(S4{}), "S5": reflect.TypeOf(S5{}), "Inner": reflect.TypeOf(Inner{}), "hidden": reflect.TypeOf(hidden{}),
+}
+
+var (
+	anyType  = reflect.TypeOf((*any)(nil)).Elem()
+	timeType = reflect.TypeOf(time.Time{})
+	_        = S1{}.c
+	_        = S4{}.hidden
+)
+
+// ---- descriptors ----
+
+type Field struct {
+	Name   []int `json:"name"`
+	Hastag int   `json:"hastag"`
+	Tag    []int `json:"tag"`
+	Exp    int   `json:"exp"`
+	Emb    int   `json:"emb"`
+	Iface  int   `json:"iface"`
+	V      *Desc `json:"v"`
+}
+type Ent struct {
+	Key []int `json:"key"`
+	V   *Desc `json:"v"`
+}
+type Desc struct {
+	K      string  `json:"k"`
+	B      int     `json:"b"`
+	Ty     string  `json:"ty"`
+	Txt    []int   `json:"txt"`
+	S      []int   `json:"s"`
+	Nil    int     `json:"nil"`
+	V      *Desc   `json:"v"`
+	Typed  int     `json:"typed"`
+	Kids   []*Desc `json:"kids"`
+	Kk     string  `json:"kk"`
+	Ents   []Ent   `json:"ents"`
+	Fields []Field `json:"fields"`
+	Y      int     `json:"y"`
+	Mo     int     `json:"mo"`
+	D      int     `json:"d"`
+	H      int     `json:"h"`
+	Mi     int     `json:"mi"`
+	Sec    int     `json:"sec"`
+	Ns     int     `json:"ns"`
+	Off    int     `json:"off"`
+	Utc    int     `json:"utc"`
+}
+
+var intTypes = map[string]reflect.Type{
+	"int": reflect.TypeOf(int(0)), "int8": reflect.TypeOf(int8(0)), "int16": reflect.TypeOf(int16(0)), "int32": reflect.TypeOf(int32(0)),
+	"int64": reflect.TypeOf(int64(0)), "uint": reflect.TypeOf(uint(0)), "uint8": reflect.TypeOf(uint8(0)), "uint16": reflect.TypeOf(uint16(0)),
+	"uint32": reflect.TypeOf(uint32(0)), "uint64": reflect.TypeOf(uint64(0)), "uintptr": reflect.TypeOf(uintptr(0)),
+}
+
+func str(a []int) string { return string(drv.BytesOf(a)) }
+
+// set stores v (possibly the invalid Value = untyped nil) into dst.
+func set(dst, v reflect.Value) error {
+	if !v.IsValid() {
+		switch dst.Kind() {
+		case reflect.Interface, reflect.Pointer, reflect.Slice, reflect.Map:
+			return nil // stays the zero value (nil)
+		}
+		return fmt.Errorf("nil for %s", dst.Type())
+	}
+	if !v.Type().AssignableTo(dst.Type()) {
+		return fmt.Errorf("%s not assignable to %s", v.Type(), dst.Type())
+	}
+	dst.Set(v)
+	return nil
+}
+
+// elemOf is the element type of a slice/array descriptor: the hint's, or (typed) the common type of the
+// children, else any.
+func elemOf(d *Desc, hint reflect.Type, kids []reflect.Value) reflect.Type {
+	if hint != nil && (hint.Kind() == reflect.Slice || hint.Kind() == reflect.Array) {
+		return hint.Elem()
+	}
+	if d.Typed == 1 {
+		var t reflect.Type
+		for _, k := range kids {
+			if !k.IsValid() || (t != nil && k.Type() != t) {
+				return anyType
+			}
+			t = k.Type()
+		}
+		if t == nil {
+			return intTypes["int64"]
+		}
+		return t
+	}
+	return anyType
+}
+
+// build constructs the Go value a descriptor describes.  hint is the static type the context demands
+// (a struct field's type) or nil.  The invalid reflect.Value stands for the untyped nil.
+func build(d *Desc, hint reflect.Type) (reflect.Value, error) {
+	none := reflect.Value{}
+	if hint != nil && hint.Kind() == reflect.Interface {
+		hint = nil
+	}
+	switch d.K {
+	case "nil":
+		return none, nil
+	case "bool":
+		return reflect.ValueOf(d.B == 1), nil
+	case "int":
+		t, ok := intTypes[d.Ty]
+		if !ok {
+			return none, fmt.Errorf("unknown int type %q", d.Ty)
+		}
+		v := reflect.New(t).Elem()
+		if t.Kind() >= reflect.Uint && t.Kind() <= reflect.Uintptr {
+			n, err := strconv.ParseUint(str(d.Txt), 10, t.Bits())
+			if err != nil {
+				return none, err
+			}
+			v.SetUint(n)
+		} else {
+			n, err := strconv.ParseInt(str(d.Txt), 10, t.Bits())
+			if err != nil {
+				return none, err
+			}
+			v.SetInt(n)
+		}
+		return v, nil
+	case "float":
+		bits := 64
+		if d.Ty == "float32" {
+			bits = 32
+		}
+		f, err := strconv.ParseFloat(str(d.Txt), bits)
+		if err != nil {
+			return none, err
+		}
+		if bits == 32 {
+			return reflect.ValueOf(float32(f)), nil
+		}
+		return reflect.ValueOf(f), nil
+	case "str":
+		return reflect.ValueOf(str(d.S)), nil
+	case "bytes":
+		if d.Nil == 1 {
+			return reflect.ValueOf([]byte(nil)), nil
+		}
+		b := make([]byte, len(d.S))
+		copy(b, drv.BytesOf(d.S))
+		return reflect.ValueOf(b), nil
+	case "time":
+		loc := time.UTC
+		if d.Utc != 1 {
+			loc = time.FixedZone("", d.Off*60)
+		}
+		t := time.Date(d.Y, time.Month(d.Mo), d.D, d.H, d.Mi, d.Sec, d.Ns, loc)
+		if t.Year() != d.Y || int(t.Month()) != d.Mo || t.Day() != d.D || t.Hour() != d.H || t.Minute() != d.Mi || t.Second() != d.Sec {
+			return none, errors.New("time fields were normalised")
+		}
+		return reflect.ValueOf(t), nil
+	case "ptr":
+		if d.Nil == 1 {
+			if hint != nil && hint.Kind() == reflect.Pointer {
+				return reflect.Zero(hint), nil
+			}
+			return reflect.ValueOf((*int64)(nil)), nil
+		}
+		var eh reflect.Type
+		if hint != nil && hint.Kind() == reflect.Pointer {
+			eh = hint.Elem()
+		}
+		v, err := build(d.V, eh)
+		if err != nil {
+			return none, err
+		}
+		et := anyType
+		if eh != nil {
+			et = eh
+		} else if v.IsValid() {
+			et = v.Type()
+		}
+		p := reflect.New(et)
+		return p, set(p.Elem(), v)
+	case "slice", "array":
+		var eh reflect.Type
+		if hint != nil && (hint.Kind() == reflect.Slice || hint.Kind() == reflect.Array) {
+			eh = hint.Elem()
+		}
+		kids := make([]reflect.Value, len(d.Kids))
+		for i, k := range d.Kids {
+			v, err := build(k, eh)
+			if err != nil {
+				return none, err
+			}
+			kids[i] = v
+		}
+		et := elemOf(d, hint, kids)
+		var s reflect.Value
+		if d.K == "slice" {
+			if et.Kind() == reflect.Uint8 && et == intTypes["uint8"] {
+				return none, errors.New("a []uint8 is described by the kind bytes")
+			}
+			if d.Nil == 1 {
+				return reflect.Zero(reflect.SliceOf(et)), nil
+			}
+			s = reflect.MakeSlice(reflect.SliceOf(et), len(kids), len(kids))
+		} else {
+			if hint != nil && hint.Kind() == reflect.Array && hint.Len() != len(kids) {
+				return none, errors.New("array length")
+			}
+			s = reflect.New(reflect.ArrayOf(len(kids), et)).Elem()
+		}
+		for i, v := range kids {
+			if err := set(s.Index(i), v); err != nil {
+				return none, err
+			}
+		}
+		return s, nil
+	case "map":
+		var kt reflect.Type
+		switch d.Kk {
+		case "string":
+			kt = reflect.TypeOf("")
+		case "int":
+			kt = reflect.TypeOf(int(0))
+		case "bool":
+			kt = reflect.TypeOf(false)
+		default:
+			return none, fmt.Errorf("unknown key kind %q", d.Kk)
+		}
+		et := anyType
+		if hint != nil && hint.Kind() == reflect.Map {
+			if hint.Key() != kt {
+				return none, errors.New("map key type")
+			}
+			et = hint.Elem()
+		}
+		mt := reflect.MapOf(kt, et)
+		if d.Nil == 1 {
+			return reflect.Zero(mt), nil
+		}
+		m := reflect.MakeMapWithSize(mt, len(d.Ents))
+		for _, e := range d.Ents {
+			k := reflect.New(kt).Elem()
+			switch d.Kk {
+			case "string":
+				k.SetString(str(e.Key))
+			case "int":
+				n, err := strconv.ParseInt(str(e.Key), 10, 64)
+				if err != nil {
+					return none, err
+				}
+				k.SetInt(n)
+			case "bool":
+				k.SetBool(str(e.Key) == "true")
+			}
+			v, err := build(e.V, et)
+			if err != nil {
+				return none, err
+			}
+			ev := reflect.New(et).Elem()
+			if err := set(ev, v); err != nil {
+				return none, err
+			}
+			if m.MapIndex(k).IsValid() {
+				return none, errors.New("duplicate map key")
+			}
+			m.SetMapIndex(k, ev)
+		}
+		return m, nil
+	case "struct":
+		t, ok := registry[d.Ty]
+		if !ok {
+			return none, fmt.Errorf("unknown struct type %q", d.Ty)
+		}
+		if hint != nil && hint != t {
+			return none, fmt.Errorf("struct %s where %s is demanded", t, hint)
+		}
+		if t.NumField() != len(d.Fields) {
+			return none, fmt.Errorf("descriptor of %s has %d fields", d.Ty, len(d.Fields))
+		}
+		s := reflect.New(t).Elem()
+		for i := range d.Fields {
+			f, sf := &d.Fields[i], t.Field(i)
+			tag, hastag := sf.Tag.Lookup("json")
+			// binding check: the descriptor's field metadata is what reflection says about the Go type
+			if str(f.Name) != sf.Name || (f.Hastag == 1) != hastag || str(f.Tag) != tag || (f.Exp == 1) != sf.IsExported() ||
+				(f.Emb == 1) != sf.Anonymous || (f.Iface == 1) != (sf.Type.Kind() == reflect.Interface) {
+				return none, fmt.Errorf("descriptor field %d of %s does not describe %s", i, d.Ty, sf.Name)
+			}
+			if !sf.IsExported() {
+				continue // keeps its zero value (the descriptor says so too)
+			}
+			v, err := build(f.V, sf.Type)
+			if err != nil {
+				return none, err
+			}
+			if err := set(s.Field(i), v); err != nil {
+				return none, err
+			}
+		}
+		return s, nil
+	}
+	return none, fmt.Errorf("unknown descriptor kind %q", d.K)
+}
+
+// ---- contexts ----
+
+type context struct{ name, file, pre, post string }
+
+var contexts = []context{
+	{"js_script", "index.html", "<script>var v = ", ";</script>"},
+	{"js_file", "index.js", "var v = ", ";\n"},
+	{"json_file", "index.json", "", ""},
+	{"json_script", "index.html", `<script type="application/ld+json">`, "</script>"},
+}
+
+var oracle = flag.Bool("oracle", false, "also consult encoding/json (violation path only)")
+
+func render(c context, v reflect.Value) (st, out, errs string) {
+	defer func() {
+		if r := recover(); r != nil {
+			st, out, errs = "hostpanic", "", fmt.Sprint(r)
+		}
+	}()
 	var g any
-	if v == nil {
+	if v.IsValid() {
+		p := reflect.New(v.Type())
+		p.Elem().Set(v)
+		g = p.Interface()
+	} else {
 		var x any
 		g = &x
-	} else {
-		p := reflect.New(reflect.TypeOf(v))
-		p.Elem().Set(reflect.ValueOf(v))
-		g = p.Interface()
 	}
-	t, err := scriggo.BuildTemplate(scriggo.Files{file: []byte(src)}, file, &scriggo.BuildOptions{Globals: native.Declarations{"x": g}})
+	src := c.pre + "{{ x }}" + c.post
+	t, err := scriggo.BuildTemplate(scriggo.Files{c.file: []byte(src)}, c.file, &scriggo.BuildOptions{Globals: native.Declarations{"x": g}})
 	if err != nil {
-		return "BUILDERR " + err.Error()
+		var be *scriggo.BuildError
+		if errors.As(err, &be) {
+			return "builderr", "", err.Error()
+		}
+		return "hostpanic", "", "build: " + err.Error()
 	}
 	var b bytes.Buffer
 	if err := t.Run(&b, nil, nil); err != nil {
-		return "RUNERR " + err.Error()
+		return "runerr", "", err.Error()
+	}
+	s := b.String()
+	if strings.HasPrefix(s, c.pre) && strings.HasSuffix(s, c.post) && len(s) >= len(c.pre)+len(c.post) {
+		s = s[len(c.pre) : len(s)-len(c.post)]
+	}
+	return "ok", s, ""
+}
+
+// consult is the oracle guard: does encoding/json, on the same value, give the same data as the rendered text?
+func consult(v reflect.Value, st, out string) string {
+	var iv any
+	if v.IsValid() {
+		iv = v.Interface()
+	}
+	ref, err := json.Marshal(iv)
+	if err != nil {
+		if st != "ok" {
+			return "agree" // both refuse
+		}
+		return "disagree"
+	}
+	if st != "ok" {
+		return "disagree"
+	}
+	if !json.Valid([]byte(out)) {
+		if strings.Contains(out, "new Date(") {
+			return "na" // not JSON by design: encoding/json cannot say anything
+		}
+		return "disagree"
+	}
+	var a, b any
+	if json.Unmarshal(ref, &a) != nil || json.Unmarshal([]byte(out), &b) != nil {
+		return "disagree"
+	}
+	if reflect.DeepEqual(a, b) {
+		return "agree"
+	}
+	return "disagree"
+}
+
+func each(c json.RawMessage, seed int64) []any {
+	var k struct {
+		ID   int             `json:"id"`
+		Desc json.RawMessage `json:"desc"`
+		Cx   []string        `json:"cx"`
+	}
+	drv.Must(json.Unmarshal(c, &k))
+	var d Desc
+	drv.Must(json.Unmarshal(k.Desc, &d))
+	v, err := build(&d, nil)
+	var recs []any
+	for _, cx := range contexts {
+		if len(k.Cx) > 0 {
+			keep := false
+			for _, n := range k.Cx {
+				keep = keep || n == cx.name
+			}
+			if !keep {
+				continue
+			}
+		}
+		rec := map[string]any{"id": k.ID, "ctx": cx.name, "desc": k.Desc}
+		if err != nil {
+			rec["st"], rec["out"], rec["err"] = "descerror", []int{}, err.Error()
+		} else {
+			st, out, errs := render(cx, v)
+			rec["st"], rec["out"], rec["err"] = st, drv.IntsS(out), errs
+			if *oracle {
+				rec["oracle"] = consult(v, st, out)
+			}
+		}
+		recs = append(recs, rec)
+	}
+	return recs
+}
+
+// ---- seeded random descriptors (echoed whole in the observations) ----
+
+type gen struct{ r *rand.Rand }
+
+func ints(s string) []int { return drv.IntsS(s) }
+
+var runeMenu = []rune{'a', 'Z', '0', ' ', '"', '\'', '\\', '<', '>', '&', '/', '\n', '\r', '\t', 0, 0x1f, 0x7f, 0xe9, 0x2028, 0x2029, 0xfeff, 0xfffd, 0x1F600, '{', '}', '[', ']', ':', ',', '-', '+', '.', 'e', 'E'}
+
+func (g *gen) text(max int) string {
+	var b strings.Builder
+	n := g.r.Intn(max + 1)
+	for i := 0; i < n; i++ {
+		switch g.r.Intn(40) {
+		case 0:
+			b.WriteString("</script>")
+		case 1:
+			b.WriteByte(byte(128 + g.r.Intn(128))) // not UTF-8: outside the reference (skipped and counted)
+		default:
+			b.WriteRune(runeMenu[g.r.Intn(len(runeMenu))])
+		}
 	}
 	return b.String()
 }
 
-func main() {
-	vals := []any{math.NaN(), math.Inf(1), math.Inf(-1), map[string]any{"a": math.NaN()}, []byte(nil), []byte{}, NB{1, 2}, S4{Inner{1, "q"}, inner2{3}, 2},
-		time.Date(2006, 1, 2, 15, 4, 5, 500000000, time.UTC), time.Date(2006, 1, 2, 15, 4, 5, 123456789, time.FixedZone("X", -3*3600-1800)),
-		map[bool]any{true: 1, false: 2}, map[int]any{10: 1, 2: 2, -1: 3}, float32(0.1), 5e-324, 1e21, uint64(math.MaxUint64), "a\"< \U0001F600\x00", map[float64]any{1.5: 1},
-		[0]int{}, [2]any{nil, 1}, math.Copysign(0, -1), struct{ A any `json:"a,omitempty"` }{0}, uintptr(5), int8(-128)}
-	for _, v := range vals {
-		j, err := json.Marshal(v)
-		fmt.Printf("%T\n  js  : %s\n  json: %s\n  ldjs: %s\n  std : %s %v\n", v, show("i.html", "<script>var v = {{ x }};</script>", v), show("i.json", "{{ x }}", v), show("i.html", `<script type="application/ld+json">{{ x }}</script>`, v), j, err)
+func (g *gen) digits(n int) string {
+	b := make([]byte, n)
+	for i := range b {
+		b[i] = byte('0' + g.r.Intn(10))
 	}
+	if b[0] == '0' {
+		b[0] = '1'
+	}
+	if b[n-1] == '0' {
+		b[n-1] = '7'
+	}
+	return string(b)
+}
+
+func (g *gen) intLeaf(ty string) map[string]any {
+	t := intTypes[ty]
+	bits := t.Bits()
+	var txt string
+	if t.Kind() >= reflect.Uint && t.Kind() <= reflect.Uintptr {
+		var u uint64
+		switch g.r.Intn(4) {
+		case 0:
+			u = 0
+		case 1:
+			u = ^uint64(0) >> (64 - bits)
+		default:
+			u = g.r.Uint64() >> (64 - bits) >> g.r.Intn(bits)
+		}
+		txt = strconv.FormatUint(u, 10)
+	} else {
+		var n int64
+		switch g.r.Intn(5) {
+		case 0:
+			n = 0
+		case 1:
+			n = -1 << (bits - 1)
+		case 2:
+			n = 1<<(bits-1) - 1
+		default:
+			n = int64(g.r.Uint64()) >> (64 - bits) >> g.r.Intn(bits)
+		}
+		txt = strconv.FormatInt(n, 10)
+	}
+	return map[string]any{"k": "int", "ty": ty, "txt": ints(txt)}
+}
+
+// floatLeaf: at most 15 (float64) / 6 (float32) significant digits, so the text IS the shortest
+// round-trip text of the value it parses to.
+func (g *gen) floatLeaf(ty string) map[string]any {
+	switch g.r.Intn(14) {
+	case 0:
+		return map[string]any{"k": "float", "ty": ty, "txt": ints("NaN")}
+	case 1:
+		return map[string]any{"k": "float", "ty": ty, "txt": ints("+Inf")}
+	case 2:
+		return map[string]any{"k": "float", "ty": ty, "txt": ints("-Inf")}
+	case 3:
+		return map[string]any{"k": "float", "ty": ty, "txt": ints("0")}
+	}
+	maxd, maxe := 15, 290
+	if ty == "float32" {
+		maxd, maxe = 6, 30
+	}
+	ds := g.digits(1 + g.r.Intn(maxd))
+	e := g.r.Intn(2*maxe+1) - maxe
+	if g.r.Intn(2) == 0 {
+		e = g.r.Intn(25) - 12
+	}
+	txt := ds[:1]
+	if len(ds) > 1 {
+		txt += "." + ds[1:]
+	}
+	txt += "e" + strconv.Itoa(e)
+	if g.r.Intn(2) == 0 {
+		txt = "-" + txt
+	}
+	return map[string]any{"k": "float", "ty": ty, "txt": ints(txt)}
+}
+
+func (g *gen) timeLeaf() map[string]any {
+	y := 1900 + g.r.Intn(200)
+	if g.r.Intn(6) == 0 {
+		y = 1 + g.r.Intn(9999)
+	}
+	mo := 1 + g.r.Intn(12)
+	off := (g.r.Intn(105) - 48) * 15
+	utc := 0
+	switch g.r.Intn(4) {
+	case 0:
+		off, utc = 0, 1
+	case 1:
+		off = 0
+	}
+	ns := []int{0, 0, 1000000 * g.r.Intn(1000), g.r.Intn(1000000000), 999999999, 1}[g.r.Intn(6)]
+	return map[string]any{"k": "time", "y": y, "mo": mo, "d": 1 + g.r.Intn(28), "h": g.r.Intn(24), "mi": g.r.Intn(60), "sec": g.r.Intn(60),
+		"ns": ns, "off": off, "utc": utc}
+}
+
+var intNames = []string{"int", "int8", "int16", "int32", "int64", "uint", "uint8", "uint16", "uint32", "uint64", "uintptr"}
+var nilDesc = map[string]any{"k": "nil"}
+
+func (g *gen) leaf() map[string]any {
+	switch g.r.Intn(12) {
+	case 0:
+		return nilDesc
+	case 1:
+		return map[string]any{"k": "bool", "b": g.r.Intn(2)}
+	case 2, 3:
+		return g.intLeaf(intNames[g.r.Intn(len(intNames))])
+	case 4, 5:
+		return g.floatLeaf([]string{"float64", "float64", "float32"}[g.r.Intn(3)])
+	case 6, 7:
+		return map[string]any{"k": "str", "s": ints(g.text(8))}
+	case 8:
+		return g.timeLeaf()
+	case 9:
+		return g.bytesLeaf()
+	case 10:
+		return map[string]any{"k": "ptr", "nil": 1, "v": nilDesc}
+	}
+	return map[string]any{"k": "ptr", "nil": 0, "v": g.leaf()}
+}
+
+func (g *gen) bytesLeaf() map[string]any {
+	if g.r.Intn(4) == 0 {
+		return map[string]any{"k": "bytes", "nil": 1, "s": []int{}}
+	}
+	b := make([]int, g.r.Intn(7))
+	for i := range b {
+		b[i] = g.r.Intn(256)
+	}
+	return map[string]any{"k": "bytes", "nil": 0, "s": b}
+}
+
+func (g *gen) any(depth int) map[string]any {
+	if depth <= 0 || g.r.Intn(3) == 0 {
+		return g.leaf()
+	}
+	n := g.r.Intn(4)
+	switch g.r.Intn(8) {
+	case 0, 1:
+		if g.r.Intn(8) == 0 {
+			return map[string]any{"k": "slice", "typed": g.r.Intn(2), "nil": 1, "kids": []any{}}
+		}
+		kids := make([]any, n)
+		typed := g.r.Intn(3) / 2
+		var proto map[string]any
+		for i := range kids {
+			kids[i] = g.any(depth - 1)
+			if typed == 1 { // same-typed children: re-draw leaves of one kind
+				if proto == nil {
+					proto = g.typedLeaf()
+				}
+				kids[i] = g.like(proto)
+			}
+		}
+		return map[string]any{"k": "slice", "typed": typed, "nil": 0, "kids": kids}
+	case 2:
+		kids := make([]any, n)
+		for i := range kids {
+			kids[i] = g.any(depth - 1)
+		}
+		return map[string]any{"k": "array", "typed": 0, "nil": 0, "kids": kids}
+	case 3, 4:
+		kk := []string{"string", "string", "int", "bool"}[g.r.Intn(4)]
+		if g.r.Intn(8) == 0 {
+			return map[string]any{"k": "map", "kk": kk, "nil": 1, "ents": []any{}}
+		}
+		seen := map[string]bool{}
+		var ents []any
+		for i := 0; i < n; i++ {
+			var key string
+			switch kk {
+			case "string":
+				key = strings.ToValidUTF8(g.text(4), "?")
+				if key == "__proto__" {
+					key = "p"
+				}
+			case "int":
+				key = strconv.Itoa(g.r.Intn(41) - 20)
+			default:
+				key = []string{"true", "false"}[g.r.Intn(2)]
+			}
+			if seen[key] {
+				continue
+			}
+			seen[key] = true
+			ents = append(ents, map[string]any{"key": ints(key), "v": g.any(depth - 1)})
+		}
+		if ents == nil {
+			ents = []any{}
+		}
+		return map[string]any{"k": "map", "kk": kk, "nil": 0, "ents": ents}
+	case 5:
+		return map[string]any{"k": "ptr", "nil": 0, "v": g.any(depth - 1)}
+	}
+	names := []string{"S0", "S1", "S2", "S3", "S4", "S5"}
+	return g.forType(registry[names[g.r.Intn(len(names))]], depth-1)
+}
+
+func (g *gen) typedLeaf() map[string]any {
+	switch g.r.Intn(5) {
+	case 0:
+		return map[string]any{"k": "bool", "b": 0}
+	case 1:
+		return g.intLeaf([]string{"int", "int64", "uint16", "uint64"}[g.r.Intn(4)])
+	case 2:
+		return g.floatLeaf("float64")
+	case 3:
+		return g.timeLeaf()
+	}
+	return map[string]any{"k": "str", "s": []int{}}
+}
+
+func (g *gen) like(p map[string]any) map[string]any {
+	switch p["k"] {
+	case "bool":
+		return map[string]any{"k": "bool", "b": g.r.Intn(2)}
+	case "int":
+		return g.intLeaf(p["ty"].(string))
+	case "float":
+		return g.floatLeaf(p["ty"].(string))
+	case "time":
+		return g.timeLeaf()
+	}
+	return map[string]any{"k": "str", "s": ints(g.text(6))}
+}
+
+// forType draws a descriptor for a static Go type (struct fields).
+func (g *gen) forType(t reflect.Type, depth int) map[string]any {
+	switch {
+	case t == timeType:
+		return g.timeLeaf()
+	case t.Kind() == reflect.Interface:
+		return g.any(depth)
+	case t.Kind() == reflect.Bool:
+		return map[string]any{"k": "bool", "b": g.r.Intn(2)}
+	case t.Kind() == reflect.String:
+		return map[string]any{"k": "str", "s": ints(g.text(g.r.Intn(2) * 6))}
+	case t.Kind() >= reflect.Int && t.Kind() <= reflect.Uintptr:
+		return g.intLeaf(t.Kind().String())
+	case t.Kind() == reflect.Float64 || t.Kind() == reflect.Float32:
+		return g.floatLeaf(t.Kind().String())
+	case t.Kind() == reflect.Slice && t.Elem().Kind() == reflect.Uint8:
+		return g.bytesLeaf()
+	case t.Kind() == reflect.Pointer:
+		if g.r.Intn(3) == 0 {
+			return map[string]any{"k": "ptr", "nil": 1, "v": nilDesc}
+		}
+		return map[string]any{"k": "ptr", "nil": 0, "v": g.forType(t.Elem(), depth)}
+	case t.Kind() == reflect.Slice:
+		if g.r.Intn(3) == 0 {
+			return map[string]any{"k": "slice", "typed": 0, "nil": g.r.Intn(2), "kids": []any{}}
+		}
+		kids := make([]any, 1+g.r.Intn(2))
+		for i := range kids {
+			kids[i] = g.forType(t.Elem(), depth-1)
+		}
+		return map[string]any{"k": "slice", "typed": 0, "nil": 0, "kids": kids}
+	case t.Kind() == reflect.Array:
+		kids := make([]any, t.Len())
+		for i := range kids {
+			kids[i] = g.forType(t.Elem(), depth-1)
+		}
+		return map[string]any{"k": "array", "typed": 0, "nil": 0, "kids": kids}
+	case t.Kind() == reflect.Map:
+		if g.r.Intn(3) == 0 {
+			return map[string]any{"k": "map", "kk": "string", "nil": g.r.Intn(2), "ents": []any{}}
+		}
+		return map[string]any{"k": "map", "kk": "string", "nil": 0, "ents": []any{
+			map[string]any{"key": ints("k"), "v": g.forType(t.Elem(), depth-1)}, map[string]any{"key": ints("K<"), "v": g.forType(t.Elem(), depth-1)}}}
+	case t.Kind() == reflect.Struct:
+		fields := make([]any, t.NumField())
+		for i := range fields {
+			sf := t.Field(i)
+			tag, hastag := sf.Tag.Lookup("json")
+			f := map[string]any{"name": ints(sf.Name), "hastag": b2i(hastag), "tag": ints(tag), "exp": b2i(sf.IsExported()), "emb": b2i(sf.Anonymous),
+				"iface": b2i(sf.Type.Kind() == reflect.Interface)}
+			if sf.IsExported() {
+				f["v"] = g.forType(sf.Type, depth)
+			} else {
+				f["v"] = zeroDesc(sf.Type)
+			}
+			fields[i] = f
+		}
+		name := t.Name()
+		return map[string]any{"k": "struct", "ty": name, "fields": fields}
+	}
+	panic("forType: " + t.String())
+}
+
+func zeroDesc(t reflect.Type) map[string]any {
+	switch t.Kind() {
+	case reflect.Bool:
+		return map[string]any{"k": "bool", "b": 0}
+	case reflect.Int64:
+		return map[string]any{"k": "int", "ty": "int64", "txt": ints("0")}
+	case reflect.Struct:
+		fields := make([]any, t.NumField())
+		for i := range fields {
+			sf := t.Field(i)
+			tag, hastag := sf.Tag.Lookup("json")
+			fields[i] = map[string]any{"name": ints(sf.Name), "hastag": b2i(hastag), "tag": ints(tag), "exp": b2i(sf.IsExported()), "emb": b2i(sf.Anonymous),
+				"iface": b2i(sf.Type.Kind() == reflect.Interface), "v": zeroDesc(sf.Type)}
+		}
+		return map[string]any{"k": "struct", "ty": t.Name(), "fields": fields}
+	}
+	panic("zeroDesc: " + t.String())
+}
+
+func b2i(b bool) int {
+	if b {
+		return 1
+	}
+	return 0
+}
+
+func extra(seed int64, n int) []json.RawMessage {
+	g := &gen{rand.New(rand.NewSource(seed))}
+	out := make([]json.RawMessage, 0, n)
+	for i := 0; i < n; i++ {
+		m, err := json.Marshal(map[string]any{"id": 1000000 + i, "desc": g.any(1 + g.r.Intn(3))})
+		drv.Must(err)
+		out = append(out, m)
+	}
+	return out
+}
+
+func main() {
+	drv.Main(&drv.Sub{Each: each, Extra: extra})
 }
